@@ -4,6 +4,7 @@ from orchestrate import Case
 RULE = ("cases = system times (ns relative to 1970) at every tick boundary +-0..199 ns around 1601, 1970, the u64 tick "
         "maximum, the platform extremes, plus random times; tick values at boundaries plus random; non-trivial = the "
         "instant is not exactly on the epoch; distinct = distinct command lists")
+RULE = RULE + ('  Both ends of the range also go through a real save and reopen (tick 0, times before 1601, the first and the last ticks): a creation time that was set is still set, and the same, afterwards.')
 ASSUMPTIONS = ["SystemTime holds i64 seconds + nanoseconds (Linux); Duration arithmetic as documented by std"]
 RELEASE_TOO = True
 
@@ -66,6 +67,13 @@ def gen_cases(rng, tier, info):
                     "(sum_set title %s)" % X.enc_str(text[:n]), "(sum_set ctime 1489862796123456700)", "(sum_set words 7)", "(sum_get)",
                     "(reopen %s)" % ["flush", "into_inner", "drop"][(k + n) % 3], "(sum_get)"]
             cases.append(Case("dbcs-%d-%d" % (page, n), cmds, ("long",)))
+    # both ends of the range through a real save / reopen: the first instant of the Windows epoch (tick 0), times before it
+    # (they saturate to tick 0), the first tick, the last ticks -- a creation time that was set is still set, and the same,
+    # after the package has been saved and reopened
+    for k, t in enumerate((LO, LO + 50, LO + 100, LO - 5 * 10**9, PMIN, HI, HI - 100, 0, -1)):
+        cmds = ["(create %d)" % (k % 3), "(sum_set ctime %d)" % t, "(sum_get)", "(reopen %s)" % ["flush", "into_inner", "drop"][k % 3], "(sum_get)",
+                "(sum_set author %s)" % X.enc_str("a"), "(reopen %s)" % ["drop", "flush", "into_inner"][k % 3], "(sum_get)"]
+        cases.append(Case("ends-%d" % k, cmds, ("ends", t)))
     return cases
 
 
@@ -84,7 +92,23 @@ def oracle(ctx):
         sub = types.SimpleNamespace(cases=[c for c, _ in pk], impl_out=[o for _, o in pk], model_out=[o for _, o in pk],
                                     run_impl=ctx.run_impl, run_model=ctx.run_model, profile=ctx.profile, tier=ctx.tier, Case=ctx.Case)
         bad += c10.oracle(sub)
-    ctx_cases = [(c, o) for c, o in zip(ctx.cases, ctx.impl_out) if "long" not in c.tags]
+    for c, outs in zip(ctx.cases, ctx.impl_out):
+        if "ends" not in c.tags:
+            continue
+        t = c.tags[1]
+        if any(o in ("panic", "abort", "timeout") for o in outs) or outs[3] != "(ok ())" or outs[6] != "(ok ())":
+            bad.append({"what": "saving / reopening a package whose creation time is %d ns failed: %r" % (t, [o[:30] for o in outs]), "cmds": c.cmds, "impl": outs[-1][:100]})
+            continue
+        try:
+            got = [c10.parse_summary(outs[i])[8] for i in (2, 4, 7)]
+        except Exception:
+            bad.append({"what": "summary unreadable", "cmds": c.cmds, "impl": outs[-1][:100]})
+            continue
+        want = min(max(t, LO), HI)
+        if got[0] is None or abs(got[0] - want) >= 100 or got[1] != got[0] or got[2] != got[0]:
+            bad.append({"what": "creation time %d ns (expected within one tick of %d): getter says %r, after save and reopen %r, after a second "
+                        "save %r" % (t, want, got[0], got[1], got[2]), "cmds": c.cmds, "impl": outs[4][:200]})
+    ctx_cases = [(c, o) for c, o in zip(ctx.cases, ctx.impl_out) if "long" not in c.tags and "ends" not in c.tags]
     pairs = []           # (t, from_time t) for monotonicity
     rts = []
     for c, outs in ctx_cases:
